@@ -464,12 +464,11 @@ Theorem transpose_exact m ud imax sl E L Lc :
   1 <= L -> 1 <= Lc ->
   (ud = true -> length (dat m) = length (idx m)) ->
   (sl = None -> Forall (fun r => r < imax) (idx m)) ->
-  (ud = true -> length (apply_slice sl (all_entries m ud)) <> 0) ->
   exists t, transpose m ud imax sl E L Lc = Ok t /\
             t_out t = transpose_spec m ud imax sl /\
             chained 0 (t_blocks t) (n_out_of imax sl).
 Proof.
-  intros HL HLc Hd Hi Hnz. unfold transpose.
+  intros HL HLc Hd Hi. unfold transpose.
   replace (L =? 0) with false by (symmetry; apply Nat.eqb_neq; lia).
   replace (Lc =? 0) with false by (symmetry; apply Nat.eqb_neq; lia). cbn [orb].
   set (n := n_out_of imax sl). set (es := all_entries m ud). set (Es := apply_slice sl es).
@@ -479,9 +478,6 @@ Proof.
   assert (G2 : match sl with None => existsb (fun r => n <=? r) (idx m) | Some _ => false end = false).
   { destruct sl; [reflexivity|]. apply existsb_ge_false. apply Hi. reflexivity. }
   rewrite G2. rewrite calc_indptr_spec by exact HLc. cbn [fst snd]. fold Es.
-  assert (G3 : ud && (length Es =? 0) = false).
-  { destruct ud; [|reflexivity]. cbn [andb]. apply Nat.eqb_neq. apply Hnz. reflexivity. }
-  rewrite G3.
   assert (HT : off Es n = length Es) by (apply off_total; apply apply_slice_minor_lt; exact Hi).
   assert (CC : concat (chunks_of es L) = es) by (apply chunks_of_concat; exact HL).
   destruct (fill_blocks_spec (chunks_of es L) sl E n (S n) 0 (0 :: cumsum_from 0 (cnts Es n)))
@@ -499,18 +495,46 @@ Proof.
     unfold transpose_spec. fold es Es n. fold (cnts Es n). reflexivity.
 Qed.
 
-(* the two error exits of the function (F2: a value array but no stored value in the slice) *)
-Theorem transpose_no_value_rejects m imax sl E L Lc :
-  1 <= L -> 1 <= Lc -> length (dat m) = length (idx m) ->
-  (sl = None -> Forall (fun r => r < imax) (idx m)) ->
-  length (apply_slice sl (all_entries m true)) = 0 ->
-  transpose m true imax sl E L Lc = Err EValue.
+(* ================================================================ an empty slice *)
+Lemma out_row_nil r : out_row [] r = [].
+Proof. reflexivity. Qed.
+
+Lemma cumsum_zeros : forall n, cumsum_from 0 (repeat 0 n) = repeat 0 n.
+Proof. induction n as [|n IH]; [reflexivity|]. cbn [repeat cumsum_from Nat.add]. rewrite IH. reflexivity. Qed.
+
+Lemma map_const_repeat {A B} (b : B) : forall (l : list A), map (fun _ => b) l = repeat b (length l).
+Proof. induction l as [|x t IH]; [reflexivity|]. cbn. rewrite IH. reflexivity. Qed.
+
+(* the specification on a slice without any stored entry: the empty matrix, whose
+   pointer array is n_out + 1 zeros *)
+Lemma transpose_spec_empty m ud imax sl :
+  length (apply_slice sl (all_entries m ud)) = 0 ->
+  transpose_spec m ud imax sl =
+  {| ptr := repeat 0 (S (n_out_of imax sl)); idx := []; dat := [] |}.
 Proof.
-  intros HL HLc Hd Hi Hz. unfold transpose.
-  replace (L =? 0) with false by (symmetry; apply Nat.eqb_neq; lia).
-  replace (Lc =? 0) with false by (symmetry; apply Nat.eqb_neq; lia). cbn [orb andb].
-  rewrite Hd, Nat.eqb_refl. cbn [negb].
-  assert (G2 : match sl with None => existsb (fun r => n_out_of imax sl <=? r) (idx m) | Some _ => false end = false).
-  { destruct sl; [reflexivity|]. apply existsb_ge_false. apply Hi. reflexivity. }
-  rewrite G2. rewrite calc_indptr_spec by exact HLc. cbn [fst snd]. rewrite Hz. reflexivity.
+  intros Hz. apply length_zero_iff_nil in Hz. unfold transpose_spec. rewrite Hz.
+  assert (SE : spec_entries [] (n_out_of imax sl) = []).
+  { unfold spec_entries. induction (seq 0 (n_out_of imax sl)) as [|r t IH]; [reflexivity | exact IH]. }
+  rewrite SE. cbn [map]. f_equal.
+  - cbn [repeat]. f_equal.
+    rewrite (map_ext (fun r => length (out_row [] r)) (fun _ => 0)) by reflexivity.
+    rewrite map_const_repeat, seq_length. apply cumsum_zeros.
+  - destruct ud; reflexivity.
+Qed.
+
+(* what used to be finding F2 (a value array but no stored value in the slice made
+   h5py refuse chunks=(0,)): with or without a value array, a slice (or a whole
+   matrix) without any stored entry transposes to the empty matrix *)
+Theorem transpose_empty_slice m ud imax sl E L Lc :
+  1 <= L -> 1 <= Lc -> (ud = true -> length (dat m) = length (idx m)) ->
+  (sl = None -> Forall (fun r => r < imax) (idx m)) ->
+  length (apply_slice sl (all_entries m ud)) = 0 ->
+  exists t, transpose m ud imax sl E L Lc = Ok t /\
+            t_out t = {| ptr := repeat 0 (S (n_out_of imax sl)); idx := []; dat := [] |} /\
+            chained 0 (t_blocks t) (n_out_of imax sl).
+Proof.
+  intros HL HLc Hd Hi Hz.
+  destruct (transpose_exact m ud imax sl E L Lc HL HLc Hd Hi) as (t & EQ & EO & CH).
+  exists t. split; [exact EQ|]. split; [|exact CH].
+  rewrite EO. apply transpose_spec_empty. exact Hz.
 Qed.
